@@ -407,13 +407,9 @@ def _used_names_in_file(filename: Path) -> Collection[str]:
     ast_root = core.parse(source)
     imported_names = tracing.get_imported_names(ast_root)
 
-    # A name that is imported under an alias is known by its original name in the other file
-    names = [
-        alias.name
-        for node in core.walk(ast_root, ast.ImportFrom)
-        for alias in node.names
-        if alias.asname is not None
-    ]
+    # A name that is imported from another file is needed from that file, even if it is only
+    # imported to be passed on, and whatever it is called here.
+    names = [alias.name for node in core.walk(ast_root, ast.ImportFrom) for alias in node.names]
     for node in core.walk(ast_root, (ast.Name, ast.Attribute)):
         if isinstance(node, ast.Name) and node.id in imported_names:
             names.append(node.id)
